@@ -491,11 +491,22 @@ theorem cleanRun_of_urlSafe (u : Str) (hu : UrlSafe u) : cleanRun urlClose u = t
 
 /-! ## the JSON branch: what `sanitize` computes, and tokens through the colouriser -/
 
-theorem sanitize_json (h : Json → Str) (can : Bool) (parse : Str → Option (List (Str × Json)))
+/-- `sanitize` written out for a loop that starts at the first field. -/
+theorem sanitize_from_first (h0 : Gen.Sanitise.isolateStart = 0) (h : Json → Str) (can : Bool)
+    (parse : Str → Option (List (Str × Json))) (record : Str) :
+    sanitize h can parse record =
+      match isolate parse [] (splitOn '|' record) with
+      | some (head, d) => renderJson h can head d
+      | none => renderPlain can record := by
+  simp only [sanitize, h0, List.take_zero, List.drop_zero]
+  rfl
+
+theorem sanitize_json (hg : GuardOK) (h0 : Gen.Sanitise.isolateStart = 0) (h : Json → Str) (can : Bool)
+    (parse : Str → Option (List (Str × Json)))
     (header j : Str) (d : List (Str × Json)) (hj : parse j = some d) (ho : firstNonSpace j = some '{')
     (hno : ∀ fs, fs ≠ [] → fs <:+ splitOn '|' header → parse (joinWith '|' (fs ++ splitOn '|' j)) = none) :
     sanitize h can parse (header ++ '|' :: j) = renderJson h can (splitOn '|' header) d := by
-  simp only [sanitize, splitOn_append, isolate_message parse _ j d hj ho hno]
+  simp only [sanitize_from_first h0, splitOn_append, isolate_message hg parse _ j d hj ho hno]
 
 theorem joinWith_infix (sep : Char) : ∀ (xs : List Str) (x : Str), x ∈ xs → x <:+: joinWith sep xs := by
   intro xs
